@@ -1289,10 +1289,18 @@ func (mgr *Manager) UpdateTag(name string, operation UpdateTagOperation) error {
 				mgr.startConverterJobIfNeeded()
 			}
 			if info.convertersUpdated {
-				// reject unknown converters before touching the tag
+				// reject unknown converters and converters that can't be
+				// attached before touching the tag
 				for _, converterName := range info.setConverterNames {
-					if _, ok := mgr.converters[converterName]; !ok {
+					converter, ok := mgr.converters[converterName]
+					if !ok {
 						return fmt.Errorf("unknown converter %q", converterName)
+					}
+					if slices.Contains(tag.converters, converter) {
+						continue
+					}
+					if err := tag.converterAttachable(name); err != nil {
+						return fmt.Errorf("failed to attach converter %q to tag %q: %w", converterName, name, err)
 					}
 				}
 				// detach deselected converters from tag
@@ -1970,17 +1978,24 @@ func (mgr *Manager) restartConverterProcess(path string) error {
 	return nil
 }
 
-func (mgr *Manager) attachConverterToTag(tag *tag, tagName string, converter *converters.CachedConverter) error {
-	// check if converter already exists
-	if slices.Contains(tag.converters, converter) {
-		return nil
-	}
+func (tag *tag) converterAttachable(tagName string) error {
 	// assert low complexity of this tag's query
 	// cannot attach converter to tag which references other tags or matches on stream data
 	// because we don't want to recursively trigger converters
 	// TODO: we could allow data queries if they only reference the stream's own plain data
 	if tag.features.MainFeatures&query.FeatureFilterData != 0 || tag.features.SubQueryFeatures&query.FeatureFilterData != 0 || len(tag.features.MainTags) > 0 || len(tag.features.SubQueryTags) > 0 {
 		return fmt.Errorf("error: cannot attach converter to tag %s because it's query is too complex", tagName)
+	}
+	return nil
+}
+
+func (mgr *Manager) attachConverterToTag(tag *tag, tagName string, converter *converters.CachedConverter) error {
+	// check if converter already exists
+	if slices.Contains(tag.converters, converter) {
+		return nil
+	}
+	if err := tag.converterAttachable(tagName); err != nil {
+		return err
 	}
 
 	tag.converters = append(tag.converters, converter)
